@@ -144,13 +144,24 @@ def optMax2 : Option Rat → Option Rat → Option Rat
   | some a, some b => some (if a ≤ b then b else a)
   | _, _ => none
 
+/-- maximum / minimum where an infinite side is simply absent (`lb_max_array`: the largest lower bound, `-inf` ignored;
+`ub_min_array`: the smallest upper bound, `+inf` ignored) -/
+def optMaxI : Option Rat → Option Rat → Option Rat
+  | some a, some b => some (if a ≤ b then b else a)
+  | some a, none => some a
+  | none, b => b
+def optMinI : Option Rat → Option Rat → Option Rat
+  | some a, some b => some (if a ≤ b then a else b)
+  | some a, none => some a
+  | none, b => b
+
 /-- `common_type`: integer variable, or fixed at an integer value -/
 def intLike (i : VarInfo) : Bool := i.isInt || (i.isFixed && isIntQ i.fixedVal)
 
 def lbMax (B : Bnds) : List Var → Option Rat      -- lb_max_array
   | [] => none
   | [a] => (B a).lb
-  | a :: t => optMax2 (B a).lb (lbMax B t)
+  | a :: t => optMaxI (B a).lb (lbMax B t)
 def ubMax (B : Bnds) : List Var → Option Rat      -- ub_array
   | [] => none
   | [a] => (B a).ub
@@ -162,7 +173,7 @@ def lbMin (B : Bnds) : List Var → Option Rat      -- lb_array
 def ubMin (B : Bnds) : List Var → Option Rat      -- ub_min_array
   | [] => none
   | [a] => (B a).ub
-  | a :: t => optMin2 (B a).ub (ubMin B t)
+  | a :: t => optMinI (B a).ub (ubMin B t)
 
 def resBnd (B : Bnds) : Fun → VarInfo
   | .affine [] c => { lb := some c, ub := some c, isInt := false }        -- MakeFixedVar
@@ -349,6 +360,12 @@ def Fun.rank : Fun → Nat
   | .condLin .eq _ _ => 6 | .condLin .le _ _ => 7 | .condLin .lt _ _ => 8 | .condLin .ge _ _ => 9 | .condLin .gt _ _ => 10
   | .not _ => 11 | .ifthen _ _ _ => 12 | .count _ => 13 | _ => 14
 
+/-- `Not` whose argument is fixed (at conversion time): `AssignResultVar2Args` of the affine expression `1 - arg` returns the
+constant variable of `MakeFixedVar` (continuous, fixed at `1 - c`), no functional row; only the equality row `res = k` is added -/
+def gNotFixed (res arg : Var) (B : Bnds) (n : Nat) : Out :=
+  let c := (B arg).fixedVal
+  { vars := [{ lb := some (1 - c), ub := some (1 - c), isInt := false }], cons := [.linRhs .eq [(-1, res), (1, n)] 0] }
+
 /-- the gadget of one definition (existing gadget functions; `n` = number of variables existing) -/
 def gadgetOf (d : Def) (B : Bnds) (o : Opts) (n : Nat) : Out :=
   match d.f with
@@ -358,7 +375,7 @@ def gadgetOf (d : Def) (B : Bnds) (o : Opts) (n : Nat) : Out :=
   | .min as => gMin d.res as d.ctx B n
   | .and as => gAnd d.res as d.ctx B n
   | .or as => gOr d.res as d.ctx B n
-  | .not a => gNot d.res a B n
+  | .not a => if (B a).isFixed then gNotFixed d.res a B n else gNot d.res a B n
   | .ifthen c t e => gIfThen d.res c t e B n
   | .condLin .eq body rhs => gCondEq d.res body rhs d.ctx B o n
   | .condLin k body rhs => gCondIneq k d.res body rhs d.ctx B o n
@@ -405,6 +422,7 @@ structure Block where
   native : Bool            -- delivered as the functional constraint itself
   refusal : Option Refusal := none
   unmodelled : Bool := false
+  removed : Bool := false  -- definition marked unused (`DecrementVarUsage` to zero): nothing is delivered for it
 
 def isConst (d : Def) : Bool := match d.f with | .affine [] _ => true | _ => false
 def isAffine (d : Def) : Bool := match d.f with | .affine _ _ => true | _ => false
@@ -431,17 +449,82 @@ def insRank (d : Def) : List Def → List Def
   | e :: t => if d.f.rank ≤ e.f.rank then d :: e :: t else e :: insRank d t
 def sortRank (l : List Def) : List Def := l.foldr insRank []
 
+/-! ## downward bound propagation from the logical rows
+
+`FixAsTrue(res)` is `PropagateResultOfInitExpr(res, 1, 1, +)`: the result variable's bounds are narrowed to `1..1` and the
+definition's `PropagateResult` (constr_prop_down.h) passes bounds on: `Not` gives its argument `1-ub..1-lb`; `And` gives its
+arguments `lb..1` (a fixing only for `lb = 1`) and, for `lb > 1/2`, decrements the usage count of its result; `Or` gives `0..ub`
+and decrements for `ub ≤ 1/2`; every other type narrows nothing below it.  Since only 0/1 variables are narrowed, every
+narrowing is a fixing; the propagation is computed here as a closure in reverse creation order (arguments have smaller
+indices than results, so every fact about a result is known when its definition is visited). -/
+
+/-- `(v, c, j)`: logical row number `j` fixes variable `v` at `c`; one fact per `PropagateResult` call that fixes -/
+abbrev Fact := Var × Rat × Nat
+
+def propDown (d : Def) (c : Rat) (j : Nat) : List Fact :=
+  match d.f with
+  | .not a => [(a, 1 - c, j)]
+  | .and as => if c = 1 then as.map (fun a => (a, 1, j)) else []
+  | .or as => if c = 0 then as.map (fun a => (a, 0, j)) else []
+  | _ => []
+
+/-- `defsRev`: definitions in reverse creation order -/
+def narrowFacts : List Def → List Fact → List Fact
+  | [], F => F
+  | d :: t, F => narrowFacts t (F ++ (F.filter (fun f => f.1 = d.res)).flatMap (fun f => propDown d f.2.1 f.2.2))
+
+def rootFacts : List Var → Nat → List Fact
+  | [], _ => []
+  | r :: t, j => (r, 1, j) :: rootFacts t (j + 1)
+
+def factOf (F : List Fact) (v : Var) : Option Rat := (F.find? (fun f => f.1 = v)).map (·.2.1)
+
+/-- the earliest logical row that fixes `v` -/
+def rowOf (F : List Fact) (v : Var) : Nat :=
+  match (F.filter (fun f => f.1 = v)).map (·.2.2) with
+  | [] => 0
+  | j :: t => t.foldl min j
+
+/-- two propagation calls ask for different values: `NarrowVarBounds` throws "Model infeasible: empty variable domain" -/
+def factsConflict (F : List Fact) : Bool := F.any fun f => F.any fun g => f.1 = g.1 && f.2.1 != g.2.1
+
+/-- bounds after the propagation: a fixed variable keeps its type -/
+def narrowB (B : Bnds) (F : List Fact) : Bnds :=
+  fun v => match factOf F v with
+    | some c => { lb := some c, ub := some c, isInt := (B v).isInt }
+    | none => B v
+
+/-- number of references to a variable: as an argument of a definition, as a logical row, in an algebraic row, in the objective -/
+def nRefs (defs : List Def) (fixTrue : List Var) (roots : List Root) (obj : Option Obj) (v : Var) : Nat :=
+  (defs.flatMap (·.f.vars)).count v + fixTrue.count v + (roots.flatMap (fun r => r.body.map (·.2))).count v +
+  (match obj with | some o => (o.lin.map (·.2)).count v | none => 0)
+
+/-- `And` fixed true / `Or` fixed false with a single reference: that reference propagated the fixing, the usage count drops to
+zero, the definition is marked unused and not converted (`FixUnusedDefinedVars` then sets the variable's bounds to `0..0`) -/
+def removedDef (F : List Fact) (nref : Var → Nat) (d : Def) : Bool :=
+  (match d.f with
+   | .and as => factOf F d.res == some 1 && as.all (fun a => factOf F a == some 1)
+   | .or as => factOf F d.res == some 0 && as.all (fun a => factOf F a == some 0)
+   | _ => false) && nref d.res == 1
+
 /-- output of the reference converter -/
 structure ConvOut where
   n0 : Nat
   N : Nat                    -- original + result variables
   M : Nat                    -- … + auxiliary variables
-  B : Bnds                   -- bounds/types of all variables `< M` (result variables as created; see `fixTrue` for FixAsTrue)
+  B0 : Bnds                  -- bounds/types of original and result variables as created (before any propagation)
+  B : Bnds                   -- bounds/types of all variables `< M` in the delivered model: `B0` narrowed by the propagation from the
+                             --   logical rows, extended by the auxiliary variables of the gadgets
   defs : List Def            -- creation order, final contexts
-  roots : List Root          -- algebraic rows, then `1 ≤ res` per logical row
+  roots : List Root          -- algebraic rows, then `1 ≤ res` per logical row (the NL side of the theorems)
+  rootsD : List Root         -- the delivered rows among them: the algebraic rows (a logical row is delivered as the bound `1..1`)
   obj : Option Obj
-  blocks : List Block        -- conversion order
-  fixTrue : List Var         -- result variables of logical rows (lower bound narrowed to 1 in the delivered model)
+  B1 : Bnds                  -- `B0` narrowed by the propagation (original and result variables)
+  kept : List Block          -- the blocks of the definitions still in use, conversion order
+  blocks : List Block        -- the removed definitions (nothing delivered), then `kept`
+  fixTrue : List Var         -- result variables of the logical rows, in row order
+  facts : List Fact          -- the fixings of the downward propagation
+  infeasible : Bool          -- the propagation met contradicting fixings ("Model infeasible: empty variable domain")
 
 /-- flattening of the whole model: objective, algebraic rows, logical rows -/
 structure FlatAll where
@@ -465,11 +548,17 @@ def convert (m : NLModel) (cfg : Cfg) : ConvOut :=
   let fa := flatAll m
   let roots := fa.croots ++ fa.lroots
   let defs := ctxDefs fa.S.B fa.S.defs roots fa.obj
-  let blocks := convDefs cfg (sortRank defs) fa.S.B fa.S.next
-  { n0 := m.n0, N := fa.S.next, M := fa.S.next + (blocks.map (·.vars.length)).sum,
-    B := blocks.foldl (fun B b => extB B b.lo b.vars) fa.S.B,
-    defs := defs, roots := roots, obj := fa.obj, blocks := blocks,
-    fixTrue := fa.lroots.flatMap (fun r => r.body.map (·.2)) }
+  let fixTrue := fa.lroots.flatMap (fun r => r.body.map (·.2))
+  let F := narrowFacts defs.reverse (rootFacts fixTrue 0)
+  let B1 := narrowB fa.S.B F
+  let rm := removedDef F (nRefs defs fixTrue fa.croots fa.obj)
+  let kept := convDefs cfg (sortRank (defs.filter (fun d => !rm d))) B1 fa.S.next
+  let blocks := (defs.filter rm).map (fun d =>
+    ({ d := d, vars := [], cons := [], lo := fa.S.next, native := false, removed := true } : Block)) ++ kept
+  { n0 := m.n0, N := fa.S.next, M := fa.S.next + (kept.map (·.vars.length)).sum,
+    B0 := fa.S.B, B1 := B1, B := kept.foldl (fun B b => extB B b.lo b.vars) B1,
+    defs := defs, roots := roots, rootsD := fa.croots, obj := fa.obj, kept := kept, blocks := blocks,
+    fixTrue := fixTrue, facts := F, infeasible := factsConflict F }
 
 /-! ## inputs on which the real converter takes a preprocessing path this reference converter does not mirror
 (the correspondence skips and counts them; the theorems do not depend on this flag) -/
@@ -489,20 +578,59 @@ def shortcutDef (B : Bnds) (defs : List Def) (d : Def) : Bool :=
     (k == .eq && (match body with | [(_, v)] => (B v).isBinary | _ => false))
   | _ => false
 
-/-- further paths of the real converter not mirrored yet (see design notes, round 5): downward bound propagation from logical rows
-(`FixAsTrue` + `PropagateResult` through not/and/or, removal of a fixed-true `and`), the unary-encoding treatment of `var == const`
-(`ConvertMaps`), results whose created bounds are a point (`MakeFixedVar` instead of a definition) -/
+/-- the logical arguments of a definition -/
+def logicalArgs : Fun → List Var
+  | .and as => as | .or as => as | .not a => [a] | .ifthen c _ _ => [c] | .count as => as | _ => []
+
+/-- the functional types with a 0/1 result -/
+def isLogicalFun : Fun → Bool
+  | .and _ | .or _ | .not _ | .condLin _ _ _ => true
+  | _ => false
+
+/-- timing of the propagation.  The reference converter computes the fixings after the whole flattening; the real one fixes after
+each logical row, and a definition *flattened later* (created, or found in the expression map — `PreprocessConstraint` runs before
+the map lookup) sees the fixed arguments and is simplified (constant result, fixed arguments dropped).  A definition with a fixed
+logical argument is therefore mirrored only when it is an and/or/not whose own result is fixed, which is referenced exactly once
+(so, recursively, flattened exactly once: in the logical row that fixes it), and none of whose arguments was fixed by an earlier
+logical row. -/
+def timingShortcut (F : List Fact) (nref : Var → Nat) (d : Def) : Bool :=
+  let fixedArgs := (logicalArgs d.f).filter (fun a => (factOf F a).isSome)
+  !fixedArgs.isEmpty &&
+  !((match d.f with | .and _ => true | .or _ => true | .not _ => true | _ => false) &&
+    (factOf F d.res).isSome && nref d.res == 1 && fixedArgs.all (fun a => decide (rowOf F d.res ≤ rowOf F a)))
+
+/-- `MakeFixedVar` keeps a map value → variable: a second request for the same constant reuses the variable.  Requests come from
+constants of the expressions (definitions `affine [] c`) and, under the linear acceptance set, from `Not` with a fixed argument. -/
+def constShortcut (o : ConvOut) : Bool :=
+  let nots : List Rat := o.blocks.filterMap (fun b => match b.d.f with
+    | .not a => if !b.removed && !b.native && (o.B a).isFixed then some (1 - (o.B a).fixedVal) else none
+    | _ => none)
+  let consts : List Rat := o.defs.filterMap (fun d => match d.f with | .affine [] c => some c | _ => none)
+  nots.any (fun c => decide (2 ≤ (nots ++ consts).count c))
+
+/-- a delivered row, algebraic row or the objective mentions the result variable of a removed definition.  The real converter
+leaves that variable with the bounds `0..0` (`FixUnusedDefinedVars`) whatever value the propagation gave it — when something
+delivered still reads it (a natively accepted `Not` whose argument is a removed `And`), the real delivered model is wrong
+(known finding C01-result-var-usage-count); in the theorems the variable keeps its propagated value. -/
+def removedRef (o : ConvOut) : Bool :=
+  let rem := (o.blocks.filter (·.removed)).map (·.d.res)
+  o.kept.any (fun b => b.cons.any (fun c => c.vars.any (fun v => rem.contains v))) ||
+  o.rootsD.any (fun r => r.body.any (fun p => rem.contains p.2)) ||
+  (match o.obj with | some ob => ob.lin.any (fun p => rem.contains p.2) | none => false)
+
+/-- further paths of the real converter not mirrored (see design notes, rounds 5 and 6): the timing of the downward propagation,
+shared `MakeFixedVar` constants, the unary-encoding treatment of `var == const` (`ConvertMaps`), results whose created bounds are a
+point (`MakeFixedVar` instead of a definition) -/
 def ConvOut.shortcut2 (o : ConvOut) (linear : Bool) : Bool :=
-  (linear && !o.fixTrue.isEmpty) ||
-  o.fixTrue.any (fun v => match defOf o.defs v with
-    | some ⟨_, _, Fun.and _⟩ => true | some ⟨_, _, Fun.or _⟩ => true | some ⟨_, _, Fun.not _⟩ => true | _ => false) ||
+  o.defs.any (timingShortcut o.facts (nRefs o.defs o.fixTrue o.rootsD o.obj)) ||
+  (linear && constShortcut o) || removedRef o ||
   o.defs.any (fun d => match d.f with
-    | .condLin .eq [(_, v)] _ => (o.B v).isInt
+    | .condLin .eq [(_, v)] _ => (o.B0 v).isInt
     | .affine [] _ => false
-    | f => (resBnd o.B f).isFixed)
+    | f => (resBnd o.B0 f).isFixed)
 
 def ConvOut.shortcut (o : ConvOut) (linear : Bool := false) : Bool :=
-  o.defs.any (shortcutDef o.B o.defs) || o.blocks.any (·.unmodelled) || o.shortcut2 linear
+  o.defs.any (shortcutDef o.B0 o.defs) || o.blocks.any (·.unmodelled) || o.shortcut2 linear
 
 def ConvOut.refusal (o : ConvOut) : Option Refusal :=
   (o.blocks.find? (fun b => b.refusal.isSome)).bind (·.refusal)
@@ -544,12 +672,12 @@ def ConvOut.checks (m : NLModel) (o : ConvOut) : Bool :=
   wfB o.n0 o.defs && decide (o.n0 ≤ o.N) &&
   o.defs.all (fun d => decide (d.res < o.N)) &&
   (List.range' o.n0 (o.N - o.n0)).all (fun v => isDefined o.defs v) &&
-  (List.range o.n0).all (fun v => decide (o.B v = m.B0 v)) &&
-  o.defs.all (typedDef o.B) &&
+  (List.range o.n0).all (fun v => decide (o.B0 v = m.B0 v)) &&
+  o.defs.all (typedDef o.B0) &&
   o.roots.all (fun r => r.body.all (fun p => decide (p.2 < o.N)) && finiteRoot r) &&
-  (ctxGaps o.B o.defs o.roots).isEmpty &&
+  (ctxGaps o.B0 o.defs o.roots).isEmpty &&
   (match o.obj with
-   | some ob => ob.lin.all (fun p => decide (p.2 < o.N)) && ob.quad.isEmpty && (objGaps o.B o.defs ob).isEmpty
+   | some ob => ob.lin.all (fun p => decide (p.2 < o.N)) && ob.quad.isEmpty && (objGaps o.B0 o.defs ob).isEmpty
    | none => true)
 
 /-- additional checks for the linear acceptance set: no gadget refused (all big-M constants finite), `cvt:bigM` unset,
@@ -564,7 +692,7 @@ def ConvOut.checksLin (o : ConvOut) (cfg : Cfg) : Bool :=
 
 /-- the non-structural part of `checks`: finite root data (the structural part — creation order, defined indices, bounds as
 created, typing, covering contexts — is proved to hold for every input, `checked_of_vok`) -/
-def ConvOut.checksSem (o : ConvOut) : Bool := o.roots.all finiteRoot
+def ConvOut.checksSem (o : ConvOut) : Bool := o.roots.all finiteRoot && !o.infeasible
 
 /-- syntactic part of the fragment: every variable leaf is a variable of the model -/
 def NLModel.vok (m : NLModel) : Bool :=
